@@ -57,6 +57,20 @@ def strip_comments(src: str) -> str:
                 j += 1
             out.append(src[i:j + 1])
             i = j + 1
+        elif c == "'":
+            # a char literal ('"', '\'', '\\', '\u{..}', 'x') is copied whole - its content opens neither a string nor
+            # a comment; a lifetime / loop label ('a) is just the quote
+            if i + 1 < n and src[i + 1] == "\\":
+                j = src.find("'", i + 3)
+                j = n - 1 if j < 0 else j
+                out.append(src[i:j + 1])
+                i = j + 1
+            elif i + 2 < n and src[i + 2] == "'":
+                out.append(src[i:i + 3])
+                i += 3
+            else:
+                out.append(c)
+                i += 1
         else:
             out.append(c)
             i += 1
@@ -251,8 +265,34 @@ def write_if_changed(out, txt):
         open(out, "w").write(txt)
 
 
+def flags_expr(txt, what, consts, column):
+    """value of an expression of the macro body over the row's `$flags` column (`column` = its value), `Flags::`
+    constants and integer literals joined by `|` (a trailing `.into()` is a conversion, not a change of value).
+    None: the expression is the local `flags` (the flags octet as received).  Anything else is untranslatable."""
+    t = norm(txt)
+    t = re.sub(r"\.\s*into\s*\(\s*\)$", "", t).strip()
+    if t.startswith("(") and t.endswith(")") and balanced(t, 0, "(", ")") == len(t):
+        t = t[1:-1].strip()
+    if t == "flags":
+        return None
+    total = 0
+    for atom in t.split("|"):
+        atom = atom.strip()
+        if atom == "$flags":
+            total |= column
+        elif re.fullmatch(r"Flags::[A-Z_]+", atom) and atom[7:] in consts:
+            total |= consts[atom[7:]]
+        else:
+            total |= int_expr(atom, what)
+    return total
+
+
 def gen_attr_flags(repo, out):
-    """the FLAGS column of path_attributes!( code => Name(Type), Flags::X, ... )"""
+    """the FLAGS column of path_attributes!( code => Name(Type), Flags::X, ... ) and what the macro DEFINITION and
+    `impl Flags` make of it: the `const FLAGS` / `const TYPE_CODE` expressions of `impl AttributeHeader for $data`,
+    the flags argument of the `WireformatPathAttribute::Invalid(..)` built for a typed kind that does not validate,
+    the `default_flags` arm, and the mask tests of `Flags::is_*` - translated (evaluated per row), not fingerprinted:
+    re-formatting and comments change nothing, a change of meaning changes the emitted numbers"""
     psrc = strip_comments(open(os.path.join(repo, "src/bgp/path_attributes.rs"), encoding="utf-8").read())
     m = one(r"impl Flags \{", psrc, "impl Flags")
     body = psrc[m.end():balanced(psrc, m.end() - 1, "{", "}") - 1]
@@ -262,6 +302,37 @@ def gen_attr_flags(repo, out):
     for need in ("WELLKNOWN", "OPT_NON_TRANS", "OPT_TRANS", "EXTENDED_LEN", "PARTIAL"):
         if need not in consts:
             raise Untranslatable("impl Flags: constant %s not found" % need)
+    # Flags::is_optional / is_transitive / is_partial / is_extended_length: `self.0 & <mask> == <value>`
+    tests = {}
+    for fn in ("is_optional", "is_transitive", "is_partial", "is_extended_length"):
+        fm = one(r"pub\s+fn\s+%s\s*\(\s*self\s*\)\s*->\s*bool\s*\{\s*\(?\s*self\s*\.\s*0\s*&\s*([0-9a-fA-Fxb_]+)\s*\)?\s*==\s*([0-9a-fA-Fxb_]+)\s*\}" % fn,
+                 body, "Flags::%s (expected `self.0 & <mask> == <value>`)" % fn)
+        tests[fn] = (int_expr(fm.group(1), fn), int_expr(fm.group(2), fn))
+    # the macro definition
+    m = one(r"macro_rules!\s*path_attributes\s*\{", psrc, "macro_rules! path_attributes")
+    mdef = psrc[m.end():balanced(psrc, m.end() - 1, "{", "}") - 1]
+    hm = one(r"impl\s+AttributeHeader\s+for\s+\$data\s*\{", mdef, "path_attributes!: impl AttributeHeader for $data")
+    hbody = mdef[hm.end():balanced(mdef, hm.end() - 1, "{", "}") - 1]
+    flags_e = one(r"const\s+FLAGS\s*:\s*u8\s*=\s*([^;]+);", hbody, "path_attributes!: const FLAGS").group(1)
+    code_e = one(r"const\s+TYPE_CODE\s*:\s*u8\s*=\s*([^;]+);", hbody, "path_attributes!: const TYPE_CODE").group(1)
+    if norm(code_e) != "$type_code":
+        raise Untranslatable("path_attributes!: const TYPE_CODE is %r, not the row's $type_code" % norm(code_e))
+    im = [x for x in re.finditer(r"WireformatPathAttribute\s*::\s*Invalid\s*\(", mdef)]
+    inv_args = []
+    for x in im:
+        args = mdef[x.end():balanced(mdef, x.end() - 1, "(", ")") - 1]
+        parts = [norm(a) for a in args.split(",")]
+        # the construction; the other occurrences are patterns (`Invalid(f, tc, p)`, `Invalid(_, _, pp)`)
+        if len(parts) == 3 and parts[2] == "pp" and not re.fullmatch(r"_\w*", parts[0]) and not re.fullmatch(r"_\w*", parts[1]):
+            inv_args.append(parts)
+    if len(inv_args) != 1:
+        raise Untranslatable("path_attributes!: expected one `WireformatPathAttribute::Invalid(<flags>, <code>, pp)` construction, found %d" % len(inv_args))
+    if inv_args[0][1] != "$type_code":
+        raise Untranslatable("path_attributes!: the Invalid attribute's type code is %r, not $type_code" % inv_args[0][1])
+    dm = one(r"pub\s+fn\s+default_flags\s*\(\s*&self\s*\)\s*->\s*Flags\s*\{", mdef, "path_attributes!: default_flags")
+    dbody = norm(mdef[dm.end():balanced(mdef, dm.end() - 1, "{", "}") - 1])
+    if not re.search(r"PathAttribute::\$name\(\s*_?\w*\s*\) => <\$data>::FLAGS\.into\(\)", dbody):
+        raise Untranslatable("path_attributes!: default_flags does not map PathAttribute::$name(..) to <$data>::FLAGS.into()")
     inv = [b for _, b in find_invocations(psrc, "path_attributes") if "$" not in b]
     if len(inv) != 1:
         raise Untranslatable("path_attributes!: %d invocations" % len(inv))
@@ -286,9 +357,16 @@ def gen_attr_flags(repo, out):
         mb = re.fullmatch(r"Flags::([A-Z_]+)", b)
         if not ma or not mb or mb.group(1) not in consts:
             raise Untranslatable("path_attributes!: row not understood: %r , %r" % (a[:60], b[:60]))
-        rows.append((int(ma.group(1)), ma.group(2), mb.group(1), consts[mb.group(1)]))
+        column = consts[mb.group(1)]
+        # what `impl AttributeHeader for $data { const FLAGS: u8 = <expr>; }` makes of the column
+        val = flags_expr(flags_e, "path_attributes!: const FLAGS", consts, column)
+        if val is None:
+            raise Untranslatable("path_attributes!: const FLAGS = flags")
+        rows.append((int(ma.group(1)), ma.group(2), mb.group(1), val))
     if len(rows) < 2:
         raise Untranslatable("path_attributes!: no rows")
+    inv_rows = [(c, flags_expr(inv_args[0][0], "path_attributes!: flags of the Invalid attribute", consts, consts[f])) for c, _, f, _ in rows]
+    inv_from_wire = any(v is None for _, v in inv_rows)
     mp = []
     for name in ("MpReachNlriBuilder", "MpUnreachNlriBuilder"):
         m = one(r"impl<A> AttributeHeader for %s<A> \{" % name, psrc, "AttributeHeader for " + name)
@@ -306,10 +384,20 @@ def gen_attr_flags(repo, out):
          "def flagOptTrans : Nat := %d" % consts["OPT_TRANS"],
          "def flagExtendedLen : Nat := %d" % consts["EXTENDED_LEN"],
          "def flagPartial : Nat := %d" % consts["PARTIAL"], "",
-         "/-- `path_attributes!` rows in source order: (type code, value of the `Flags::` constant named in the row) -/",
+         "/-- `Flags::is_optional` / `is_transitive` / `is_partial` / `is_extended_length`: (mask, value) of `self.0 & mask == value` -/",
+         "def isOptionalTest : Nat × Nat := (%d, %d)" % tests["is_optional"],
+         "def isTransitiveTest : Nat × Nat := (%d, %d)" % tests["is_transitive"],
+         "def isPartialTest : Nat × Nat := (%d, %d)" % tests["is_partial"],
+         "def isExtendedLenTest : Nat × Nat := (%d, %d)" % tests["is_extended_length"], "",
+         "/-- `path_attributes!` rows in source order: (type code, `A::FLAGS`) - the macro's `const FLAGS: u8 = <expr>` of",
+         "`impl AttributeHeader for $data` evaluated on the `Flags::` constant named in the row (as the source stands: the column itself) -/",
          "def attrFlags : List (Nat × Nat) := " + lean_list(["(%d, %d)" % (c, v) for c, _, _, v in rows]),
          "/-- the same rows: (type code, variant name, name of the constant) - for messages only -/",
          "def attrFlagNames : List (Nat × String × String) := " + lean_list(["(%d, %s, %s)" % (c, lean_str(n), lean_str(f)) for c, n, f, _ in rows]),
+         "/-- the flags argument of the `WireformatPathAttribute::Invalid(<flags>, $type_code, pp)` the macro's parse arm builds for",
+         "a typed kind whose `validate` fails, per row; `invalidArmFromWire` = it is the received `flags` octet instead -/",
+         "def invalidArmFromWire : Bool := %s" % ("true" if inv_from_wire else "false"),
+         "def invalidArmFlags : List (Nat × Nat) := " + lean_list(["(%d, %d)" % (c, v) for c, v in inv_rows if v is not None]),
          "/-- `AttributeHeader for MpReachNlriBuilder / MpUnreachNlriBuilder`: (TYPE_CODE, FLAGS) -/",
          "def mpAttrFlags : List (Nat × Nat) := " + lean_list(["(%d, %d)" % x for x in mp]), "",
          "/-- the table as a function of the type code (first row wins, as a `match` would) -/",
@@ -344,6 +432,25 @@ def gen_constants(repo, out):
     pf_min = const_expr(one(r"if len < (%s) \{" % NUM, pf, "parse_frame lower bound").group(1), "parse_frame lower bound", ss)
     pf_hdr = int_expr(one(r"buf\.remaining\(\) >= ([0-9_ +]+) \{", pf, "parse_frame header peek").group(1), "parse_frame header peek")
     pf_sub = const_expr(one(r"\(len as usize\) - (%s)\)" % NUM, pf, "parse_frame subtraction").group(1), "parse_frame subtraction", ss)
+    pf_off = const_expr(one(r"buf\.set_position\((%s)\);\s*let len = buf\.get_u16\(\)" % NUM, pf, "parse_frame length offset").group(1), "parse_frame length offset", ss)
+    m_off = one(r"u16::from_be_bytes\(\[buf\[(%s)\], buf\[(%s)\]\]\)" % (NUM, NUM), rm, "read_message length offset")
+    rm_off = const_expr(m_off.group(1), "read_message length offset", mm)
+    if const_expr(m_off.group(2), "read_message length offset + 1", mm) != rm_off + 1:
+        raise Untranslatable("read_message: the two octets of the length field are not adjacent: %r" % m_off.group(0))
+    # the three length guards are guards only while their block leaves the function with an error and while they stand
+    # BEFORE the operation they protect (a body turned into a log line, or the test moved behind the slice / the
+    # subtraction, keeps the literal but not its effect)
+    def guard(rx, body, what, before_rx):
+        m = one(rx, body, what)
+        blk = body[m.end() - 1:balanced(body, m.end() - 1, "{", "}")]
+        if not re.search(r"\breturn\s+Err\b", blk):
+            raise Untranslatable("%s: the guarded block no longer returns an error: %r" % (what, " ".join(blk.split())[:120]))
+        mb = one(before_rx, body, what + " (the operation it protects)")
+        if mb.start() < m.start():
+            raise Untranslatable("%s: the test stands after the operation it protects" % what)
+    guard(r"if len < (%s) \{" % NUM, rm, "read_message lower bound", r"read_exact\(&mut buf\[(%s)\.\." % NUM)
+    guard(r"if len > (%s) \{" % NUM, rm, "read_message upper bound", r"read_exact\(&mut buf\[(%s)\.\." % NUM)
+    guard(r"if len < (%s) \{" % NUM, pf, "parse_frame lower bound", r"\(len as usize\) - (%s)\)" % NUM)
     vals = [("maxPdu", max_pdu, "`UpdateBuilder::MAX_PDU` (update_builder.rs)"),
             ("batchThreshold", batch, "`if compose_len > N` in `take_message` (update_builder.rs)"),
             ("bmpCoff", bmp_coff, "`const COFF` of bmp/message.rs (common header + per-peer header)"),
@@ -356,7 +463,9 @@ def gen_constants(repo, out):
             ("readMessageMax", rm_max, "`if len > N` of `read_message`"),
             ("parseFrameMin", pf_min, "`if len < N` of `Connection::parse_frame` (session.rs)"),
             ("parseFramePeek", pf_hdr, "`buf.remaining() >= N` of `parse_frame` (marker + length)"),
-            ("parseFrameSub", pf_sub, "`(len as usize) - N` of `parse_frame`")]
+            ("parseFrameSub", pf_sub, "`(len as usize) - N` of `parse_frame`"),
+            ("parseFrameLenOff", pf_off, "`buf.set_position(N); buf.get_u16()` of `parse_frame`: offset of the length field"),
+            ("readMessageLenOff", rm_off, "`u16::from_be_bytes([buf[N], buf[N+1]])` of `read_message`: offset of the length field")]
     L = ["/- GENERATED by tools/gen_codepoints.py --constants from the current sources on every run. Do not edit. -/",
          "namespace Rc.Gen", ""]
     for n, v, doc in vals:
